@@ -538,6 +538,24 @@ def call_builtin(ex, name, args, kwargs, node):
       s = ks.empty()
       s.dom = z3.Lambda([k], z3.Exists([i], z3.And(0 <= i, i < v.len, v.arr[i] == k)))
       return s
+    from pyvc.exec import Iter
+    if isinstance(v, Iter):
+      # set(iterable): k is a member iff some item equals it
+      j = z3.Int(ex.path.fresh_name('j!st'))
+      w = v.at(j)
+      ek = kind_of(w)
+      itemf = ex.path.define('set_item', [j], ek.box(w))
+      ks = KSet(ek)
+      dom = ex.path.fresh_const('set_dom', z3.ArraySort(ek.sort(), sym.BoolS))
+      k = z3.Const('k!st', ek.sort())
+      i2 = z3.Int('i2!st')
+      ex.path.assume(sym.forall([k], z3.Select(dom, k) == z3.Exists(
+          [i2], z3.And(0 <= i2, i2 < v.len, itemf(i2) == k)), patterns=[z3.Select(dom, k)]))
+      ex.path.assume(sym.forall([j], z3.Implies(z3.And(0 <= j, j < v.len),
+                                                z3.Select(dom, itemf(j))), patterns=[itemf(j)]))
+      s = ks.empty()
+      s.dom = dom
+      return s
     if isinstance(v, VTuple):
       raise OutOfSubset('set(tuple)', node)
   if name == 'callable':
